@@ -384,3 +384,29 @@ def x25519_arbitrary_shares(ctx, n):
             r = ctx.call("ke_dh", u, sk)
             ctx.expect(r.ok and len(r.b(0)) == 32, "shared secret with an arbitrary peer share")
     ctx.expect(acc >= n, "most arbitrary u-coordinates are acceptable peer shares (%d of %d)" % (acc, len(us)))
+
+
+def alternative_point_encodings(group, rnd, k=3):
+    """encodings of VALID points in forms and lengths the fixed-size fields never carry: SEC1 uncompressed (04||x||y),
+    hybrid (06/07||x||y), the one-byte identity, compressed with trailing bytes; ristretto255 / Curve25519: doubled and
+    halved strings.  Only the bare key decoders see them at these lengths; they must be refused, never crash."""
+    out = []
+    if group in WCURVES:
+        p, n, nfe, b = WCURVES[group]
+        for _ in range(k):
+            x = rnd.randrange(2, p)
+            while w_sqrt(p, (x * x * x - 3 * x + b) % p) is None:
+                x += 1
+            y = w_sqrt(p, (x * x * x - 3 * x + b) % p)
+            for yy in (y, p - y):
+                out.append(("uncompressed", b"\x04" + _be(x, nfe) + _be(yy, nfe)))
+                out.append(("hybrid", bytes([6 + (yy & 1)]) + _be(x, nfe) + _be(yy, nfe)))
+                out.append(("compressed+trailing", bytes([2 + (yy & 1)]) + _be(x, nfe) + b"\x00"))
+                out.append(("compressed+y", bytes([2 + (yy & 1)]) + _be(x, nfe) + _be(yy, nfe)))
+        out.append(("identity-1-byte", b"\x00"))
+        out.append(("empty", b""))
+        out.append(("uncompressed-zeros", b"\x04" + bytes(2 * nfe)))
+    else:
+        v = bytes(rnd.getrandbits(8) for _ in range(32))
+        out += [("64 bytes", v + v), ("16 bytes", v[:16]), ("33 bytes", v + b"\x00"), ("31 bytes", v[:31]), ("empty", b"")]
+    return out
